@@ -139,4 +139,97 @@ class C13b(Obligation):
             ctx.check(annotation == 'ANNOTATION-PATH', 'a property reports the return annotation of its getter (not its value)')
 
 
-OBLIGATIONS = [C13a, C13b]
+from jedi.inference.compiled import getattr_static as jgs  # noqa: E402
+
+
+def make_descriptor_class(has_set, has_delete, log):
+    ns = {'__get__': lambda self, obj, owner: log.append('__get__ executed') or 1}
+    if has_set:
+        ns['__set__'] = lambda self, obj, value: None
+    if has_delete:
+        ns['__delete__'] = lambda self, obj: None
+    return type('Desc', (object,), ns)
+
+
+class C13c(Obligation):
+    id = 'C13.c'
+    title = 'static attribute lookup follows Python precedence: data descriptors beat the instance dict, and nothing is executed'
+    pattern = 'P5 decision table over descriptor kinds (reflection code interpreted on concrete classes chosen by symbolic flags)'
+    assumptions = ('the object graph is one class with one descriptor attribute (with/without __set__/__delete__) and '
+                   'an optional same-named instance dict entry; C-level reflection (type.__dict__) is CPython\'s',)
+
+    def scenario(self, ctx, cfg):
+        has_set = ctx.flag('descriptor_has___set__')
+        has_delete = ctx.flag('descriptor_has___delete__')
+        shadowed = ctx.flag('instance_dict_has_same_name')
+        ctx.int('unused')
+        log = []
+        D = make_descriptor_class(has_set, has_delete, log)
+        d = D()
+        Owner = type('Owner', (object,), {'attr': d})
+        obj = Owner()
+        if shadowed:
+            obj.__dict__['attr'] = 'instance value'
+        ctx.force(jgs.getattr_static, jgs._safe_is_data_descriptor, jgs._safe_hasattr)
+        out = ctx.call(jgs.getattr_static, obj, 'attr')
+        ctx.check(out.exc is None, 'never raises')
+        ctx.check(len(log) == 0, 'the lookup itself executes no user code')
+        if out.exc is not None:
+            return
+        value, is_get_descriptor = out.value
+        is_data = has_set or has_delete
+        if shadowed and not is_data:
+            ctx.check(value == 'instance value' and is_get_descriptor is False,
+                      'a non-data descriptor is shadowed by the instance dict (plain value, safe to read)')
+        else:
+            ctx.check(value is d and is_get_descriptor is True,
+                      'a data descriptor wins over the instance dict and is reported as a get-descriptor (never read in safe mode)')
+
+
+class UserDict(dict):
+    log = []
+
+    def __getitem__(self, key):
+        UserDict.log.append(key)
+        return 1
+
+
+class UserList(list):
+    def __getitem__(self, key):
+        UserDict.log.append(key)
+        return 1
+
+
+class C13d(Obligation):
+    id = 'C13.d'
+    title = 'safe mode never calls a user-defined __getitem__ (exact builtin container types only)'
+    pattern = 'P5 decision table over container kinds'
+    assumptions = ('containers: dict, list, tuple, str, a dict subclass and a list subclass overriding __getitem__',)
+
+    def configs(self, tier):
+        return [dict(kind=k) for k in ('dict', 'list', 'tuple', 'str', 'dict_subclass', 'list_subclass')]
+
+    def scenario(self, ctx, cfg):
+        del UserDict.log[:]
+        kind = cfg['kind']
+        obj = {'dict': {0: 'v'}, 'list': ['v'], 'tuple': ('v',), 'str': 'v',
+               'dict_subclass': UserDict({0: 'v'}), 'list_subclass': UserList(['v'])}[kind]
+        safe = ctx.flag('safe')
+        ctx.int('unused')
+        acc = DirectObjectAccess.__new__(DirectObjectAccess)
+        acc._inference_state = None
+        acc._obj = obj
+        acc._create_access_path = lambda o: ('PATH', o)
+        ctx.force(DirectObjectAccess.py__simple_getitem__)
+        out = ctx.call(acc.py__simple_getitem__, 0, safe=safe)
+        ctx.check(out.exc is None, 'never raises')
+        user = kind.endswith('subclass')
+        if safe and user:
+            ctx.check(out.value is None and len(UserDict.log) == 0, 'safe mode: user __getitem__ is not called, no value')
+        elif not user:
+            ctx.check(out.value == ('PATH', 'v') and len(UserDict.log) == 0, 'builtin containers are indexed')
+        else:
+            ctx.check(len(UserDict.log) == 1, 'unsafe mode may execute it')
+
+
+OBLIGATIONS = [C13a, C13b, C13c, C13d]
